@@ -104,8 +104,9 @@ def oracle(c, co):
     size = c['size']
     guard = total > size or prod == 0 or (size >= total and pow(padded, size - total, P) == 0)
     if guard:
-        # outside "all public memories with a defined ratio": the Rust asserts / divides by zero here (C18 tracks the panic)
-        return None if co[0] == 'panic' else {'key': 'memratio:guard', 'what': 'ratio returned although total > size or a zero denominator'}
+        # outside "all public memories with a defined ratio": the ratio is undefined and the Rust returns None
+        if co[0] == 'panic': return {'key': 'memratio:panic', 'what': f'get_public_memory_product_ratio panicked: {co[1][:100]}'}
+        return None if co[0] == 'err' else {'key': 'memratio:guard', 'what': 'ratio returned although total > size or a zero denominator'}
     if co[0] != 'ok':
         return {'key': 'memratio:noval', 'what': f'get_public_memory_product_ratio did not return: {co}'}
     want = pow(z, size, P) * pow(prod * pow(padded, size - total, P) % P, P - 2, P) % P
